@@ -7,6 +7,9 @@ CONSTANTS
   ExclusiveHost = FALSE
   ChecksFlag = TRUE
   SyntheticWrite = TRUE
+  LastWins = TRUE
+  MaxDup = 1
+  MaxMeta = 0
 SPECIFICATION Spec
-INVARIANTS TypeOK Isolation NoTornRead Frozen CancelledOnlyIfPending VersionsDistinct
+INVARIANTS TypeOK Isolation NoTornRead Frozen CancelledOnlyIfPending VersionsDistinct NoIntermediate
 CHECK_DEADLOCK TRUE
